@@ -45,7 +45,11 @@ pub fn gen_plan(rng: &mut Prng) -> RgPlan {
     if rng.chance(2, 3) {
         let undirected = rng.coin();
         // mostly small graphs; sometimes two-digit vertex numbers
-        let v = if rng.chance(1, 6) { rng.range(10, 14) } else { rng.range(0, 9) };
+        let v = match rng.below(24) {
+            0..=3 => rng.range(10, 14),
+            4 => *rng.pick(&[16usize, 17, 31, 32, 33, 63, 64, 65, 100, 101]),
+            _ => rng.range(0, 9),
+        };
         let max = if undirected { v * v.saturating_sub(1) / 2 } else { v * v.saturating_sub(1) };
         // half feasible-interior, a quarter at the exact maximum, a quarter infeasible / degenerate
         let e = match rng.below(8) {
@@ -88,7 +92,17 @@ pub fn gen_plan(rng: &mut Prng) -> RgPlan {
             // incl. names containing "_c" and pairs where one name is a prefix of the other
             let mut pool = vec!["a", "b", "c", "d", "e", "x1", "node_7", "Q", "a_copy", "n_core", "x_c1", "v_c", "b_c0", "v1", "v10", "n", "n2", "aB", "x10"];
             rng.shuffle(&mut pool);
-            pool[..nv].iter().map(|s| s.to_string()).collect()
+            let mut names: Vec<String> = pool[..nv].iter().map(|s| s.to_string()).collect();
+            if nv >= 3 && rng.chance(1, 8) {
+                // `hash-collision`: two 16-character vertex names after which FxHasher's state is equal,
+                // plus a third name that sorts after both
+                if let Some((a, b)) = colliding_vertex_names() {
+                    names[0] = a;
+                    names[1] = b;
+                    names[2] = "zz_sorts_last".to_string();
+                }
+            }
+            names
         };
         let ne = rng.range(0, 8);
         let mut edges = Vec::new();
@@ -119,6 +133,11 @@ pub fn gen_plan(rng: &mut Prng) -> RgPlan {
             in_place: rng.chance(1, 8),
         }
     }
+}
+
+fn colliding_vertex_names() -> Option<(String, String)> {
+    static PAIR: std::sync::OnceLock<Option<(String, String)>> = std::sync::OnceLock::new();
+    PAIR.get_or_init(|| crate::fx::colliding_names_16("vertex_name_0001", 20_000_000)).clone()
 }
 
 pub fn bin_dir() -> PathBuf {
